@@ -1,0 +1,114 @@
+//go:build verif
+
+// Contracts for the single-value mutation kernels of a Container (see
+// /verif/DESIGN.md).  Comments only; compiled only with the build tag `verif`.
+//
+// Every kernel is specified by its effect on the abstract membership `mem`
+// (exactly v is added / removed), by the exactness of its `changed` result and
+// by N-coherence: the cached cardinality c.n moves by exactly the number of
+// values that changed.  Histories of mutations then keep n == |set| by
+// induction (C02), and reads that trust n (Count, CountRange, Max on empty)
+// stay consistent with membership.
+
+package roaring
+
+//@ spec wfArrN(c *Container) = wfArr(c) && c.n == len(c.$arr)
+//@ spec covers(a interval16, b interval16) = a.start <= b.start && b.last <= a.last
+
+// arrayToBitmap: same members, same n, bitmap representation; a frozen
+// receiver is left untouched and a fresh container is returned.
+//@ contract (*Container).arrayToBitmap props C01,C02,C03
+//@   requires wfArrN(c)
+//@   ensures result != nil && wfBm(result) && result.n == old(c.n)
+//@   ensures forall x :: 0 <= x && x < 65536 ==> (memBm(result.$bm, x) <==> old(memArr(c.$arr, x)))
+//@   ensures (old(c.flags) & 2) != 0 ==> fresh(result) && result.flags == 0
+//@   ensures (old(c.flags) & 2) != 0 ==> c.typeID == 1 && c.$arr == old(c.$arr)
+//@   ensures (old(c.flags) & 2) != 0 ==> unchanged(c.$arr)
+//@   ensures (old(c.flags) & 2) == 0 ==> result == c
+//@   ensures (result.flags & 2) == 0 || fresh(result)
+//@   loop 1 invariant len(bitmap) == 1024 && fresh(bitmap) && bitmap.off == 0 && 0 <= $i + 1 && $i + 1 <= len(c.$arr) && unchanged(c.$arr)
+//@   loop 1 invariant forall x :: 0 <= x && x < 65536 ==> (bit(bitmap[x / 64], x % 64) <==> (exists k :: 0 <= k && k <= $i && c.$arr[k] == x))
+//@   loop 1 decreases len(c.$arr) - $i
+
+// arrayAdd: adds exactly v; converts to a bitmap container at ArrayMaxSize.
+//@ contract (*Container).arrayAdd props C01,C02,C03
+//@   requires wfArrN(c)
+//@   ensures result0 != nil
+//@   ensures result1 <==> !old(memArr(c.$arr, v))
+//@   ensures !result1 ==> result0 == c && result0.n == old(c.n) && c.$arr == old(c.$arr) && unchanged(c.$arr)
+//@   ensures result1 ==> result0.n == old(c.n) + 1
+//@   ensures old(c.n) < 4096 ==> wfArrN(result0)
+//@   ensures old(c.n) >= 4096 && result1 ==> wfBm(result0)
+//@   ensures mem(result0, v)
+//@   ensures old(c.n) < 4096 ==> (forall i :: 0 <= i && i < old(len(c.$arr)) ==> (result0.$arr[i] == old(c.$arr[i]) || result0.$arr[i+1] == old(c.$arr[i])))
+//@   ensures old(c.n) < 4096 ==> (forall x :: 0 <= x && x < 65536 && old(memArr(c.$arr, x)) ==> memArr(result0.$arr, x))
+//@   ensures forall x :: 0 <= x && x < 65536 && old(memArr(c.$arr, x)) ==> mem(result0, x)
+//@   ensures forall x :: 0 <= x && x < 65536 && mem(result0, x) ==> (x == v || old(memArr(c.$arr, x)))
+//@   ensures (old(c.flags) & 2) != 0 && result1 ==> fresh(result0)
+
+// arrayRemove: removes exactly v; the last value leaves a nil container.
+//@ contract (*Container).arrayRemove props C01,C02,C03
+//@   requires wfArrN(c)
+//@   ensures result1 <==> old(memArr(c.$arr, v))
+//@   ensures !result1 ==> result0 == c && result0.n == old(c.n) && c.$arr == old(c.$arr) && unchanged(c.$arr)
+//@   ensures result1 && old(c.n) == 1 ==> result0 == nil
+//@   ensures result1 && old(c.n) > 1 ==> result0 != nil && wfArrN(result0) && result0.n == old(c.n) - 1
+//@   ensures result0 != nil ==> !memArr(result0.$arr, v)
+//@   ensures result0 != nil && result1 ==> (forall i :: 0 <= i && i < len(result0.$arr) ==> (result0.$arr[i] == old(c.$arr[i]) || result0.$arr[i] == old(c.$arr[i+1])))
+//@   ensures result0 != nil ==> (forall x :: 0 <= x && x < 65536 && memArr(result0.$arr, x) ==> old(memArr(c.$arr, x)))
+//@   ensures result0 != nil && result1 ==> (forall i :: 0 <= i && i < old(len(c.$arr)) && old(c.$arr[i]) < v ==> result0.$arr[i] == old(c.$arr[i]))
+//@   ensures result0 != nil && result1 ==> (forall i :: 1 <= i && i < old(len(c.$arr)) && old(c.$arr[i]) > v ==> result0.$arr[i-1] == old(c.$arr[i]))
+//@   ensures result0 != nil ==> (forall x :: 0 <= x && x < 65536 && x != v && old(memArr(c.$arr, x)) ==> memArr(result0.$arr, x))
+//@   ensures (old(c.flags) & 2) != 0 && result1 && result0 != nil ==> fresh(result0)
+
+// bitmapToArray enumerates the set bits with the lowest-set-bit idiom
+// (word & -word, popcount(t-1)); its functional contract is assumed here (the
+// bounded stand-in rcheck/roaring exercises it), not proved.
+//@ contract (*Container).bitmapToArray trusted props C01,C02,C03
+//@   requires wfBm(c) && 0 <= c.n && c.n <= 65536
+//@   ensures result != nil && wfArrN(result) && result.n == old(c.n)
+//@   ensures forall x :: 0 <= x && x < 65536 ==> (memArr(result.$arr, x) <==> old(memBm(c.$bm, x)))
+//@   ensures (old(c.flags) & 2) != 0 ==> fresh(result) && result.flags == 0 && c.typeID == 2 && c.$bm == old(c.$bm) && unchanged(c.$bm)
+//@   ensures (old(c.flags) & 2) == 0 ==> result == c
+//@   modifies c.typeID, c.flags, c.$arr, c.n, c.len, c.cap, c.pointer, c.data
+
+// bitmapRemove: removes exactly v; the last value leaves a nil container; at
+// ArrayMaxSize the container is converted to an array.
+//@ contract (*Container).bitmapRemove props C01,C02,C03
+//@   requires wfBm(c) && 1 <= c.n && c.n <= 65536
+//@   ensures result1 <==> old(memBm(c.$bm, v))
+//@   ensures !result1 ==> result0 == c && result0.n == old(c.n) && c.$bm == old(c.$bm) && unchanged(c.$bm)
+//@   ensures result1 && old(c.n) == 1 ==> result0 == nil
+//@   ensures result1 && old(c.n) > 1 ==> result0 != nil && result0.n == old(c.n) - 1 && (wfBm(result0) || wfArrN(result0))
+//@   ensures result0 != nil ==> !mem(result0, v)
+//@   ensures result0 != nil ==> (forall x :: 0 <= x && x < 65536 && x != v ==> (mem(result0, x) <==> old(memBm(c.$bm, x))))
+//@   ensures (old(c.flags) & 2) != 0 && result1 && result0 != nil ==> fresh(result0)
+
+// runAdd: adds exactly v to a run container (extend a run, merge two runs, or
+// insert a new one).
+//@ contract (*Container).runAdd props C01,C02,C03
+//@   requires wfRuns(c) && 0 <= c.n && c.n < 2147483647 && (len(c.$runs) == 0 ==> c.n == 0)
+//@   ensures result0 != nil && isRun(result0)
+//@   ensures result1 <==> !old(memRuns(c.$runs, v))
+//@   ensures !result1 ==> result0 == c && result0.n == old(c.n) && c.$runs == old(c.$runs) && unchanged(c.$runs)
+//@   ensures result1 ==> result0.n == old(c.n) + 1
+//@   ensures (old(c.flags) & 2) != 0 && result1 ==> fresh(result0)
+//@   ensures memRuns(result0.$runs, v)
+//@   ensures sortedRuns(result0.$runs)
+//@   ensures forall i :: 0 <= i && i < old(len(c.$runs)) ==> ((i < len(result0.$runs) && covers(result0.$runs[i], old(c.$runs[i]))) || (i >= 1 && i - 1 < len(result0.$runs) && covers(result0.$runs[i-1], old(c.$runs[i]))) || (i + 1 < len(result0.$runs) && covers(result0.$runs[i+1], old(c.$runs[i]))))
+//@   ensures forall x :: 0 <= x && x < 65536 && old(memRuns(c.$runs, x)) ==> memRuns(result0.$runs, x)
+//@   ensures forall x :: 0 <= x && x < 65536 && memRuns(result0.$runs, x) ==> (x == v || old(memRuns(c.$runs, x)))
+
+// runRemove: removes exactly v from a run container (drop, shrink or split a run).
+//@ contract (*Container).runRemove props C01,C02,C03
+//@   requires wfRuns(c) && 1 <= c.n && c.n <= 65536
+//@   ensures result1 <==> old(memRuns(c.$runs, v))
+//@   ensures !result1 ==> result0 == c && result0.n == old(c.n) && c.$runs == old(c.$runs) && unchanged(c.$runs)
+//@   ensures result1 && old(c.n) == 1 ==> result0 == nil
+//@   ensures result1 && old(c.n) > 1 ==> result0 != nil && isRun(result0) && result0.n == old(c.n) - 1
+//@   ensures (old(c.flags) & 2) != 0 && result1 && result0 != nil ==> fresh(result0)
+//@   ensures result0 != nil ==> sortedRuns(result0.$runs)
+//@   ensures result0 != nil ==> !memRuns(result0.$runs, v)
+//@   ensures result0 != nil ==> (forall x :: 0 <= x && x < 65536 && memRuns(result0.$runs, x) ==> old(memRuns(c.$runs, x)))
+//@   ensures result0 != nil && result1 ==> (forall i :: 0 <= i && i < old(len(c.$runs)) ==> (old(c.$runs[i]).last < v ==> result0.$runs[i] == old(c.$runs[i])) && (old(c.$runs[i]).start > v ==> ((i < len(result0.$runs) && result0.$runs[i] == old(c.$runs[i])) || (i >= 1 && result0.$runs[i-1] == old(c.$runs[i])) || (i + 1 < len(result0.$runs) && result0.$runs[i+1] == old(c.$runs[i])))))
+//@   ensures result0 != nil ==> (forall x :: 0 <= x && x < 65536 && x != v && old(memRuns(c.$runs, x)) ==> memRuns(result0.$runs, x))
